@@ -6,7 +6,7 @@
    by changing its value alone.  Proved here for one complete cycle as a function ([mgm_next]),
    for all inputs, both objectives -- suffix _partial because the refinement of the asynchronous
    handlers to [mgm_next] is checked by the correspondence run (M_Mgm.rcheck_case), not proved. *)
-From PyDcop Require Import Base Net M_Mgm P_Mgm.
+From PyDcop Require Import Base Net M_Mgm P_Mgm M_Mgm2 P_Mgm2.
 
 (* variables that take part in cycles (they have a neighbour) *)
 Theorem mgm_no_move_1opt_partial : forall d, wf_dcop d = true -> forall a dr,
@@ -27,6 +27,19 @@ Theorem mgm_improvable_moves_partial : forall d, wf_dcop d = true -> forall a dr
   In n0 (ids d) -> r_active d n0 = true -> r_improving d a n0 = true ->
   exists n, In n (ids d) /\ mgm_next d a dr n <> a n.
 Proof. exact some_improving_moves. Qed.
+
+(* MGM2: the statement is FALSE of the code as it is (known finding C04-mgm2-idle-after-commitment):
+   a variable committed to a coordinated move gets NO-GO when another neighbour ties the pair gain,
+   and that neighbour loses its lexical tie-break against it: the cycle is idle although a
+   unilateral change improves the global cost.  Witness: an execution of the asynchronous model. *)
+Theorem mgm2_no_move_1opt_refuted :
+  let evs := snd (run w04_proto w04_sched) in
+  d_max w04_d = false
+  /\ (forall n, In n [0; 1; 2] -> 2 <= cycles_reached evs n)
+  /\ map (val_at evs 0) [0; 1; 2] = map (val_at evs 1) [0; 1; 2]
+  /\ gcost w04_d (val_at evs 1) = 1 /\ In 5 (dom_of w04_d 2)
+  /\ gcost w04_d (fupd (val_at evs 1) 2 5) = 0.
+Proof. exact mgm2_no_move_1opt_refuted_l. Qed.
 
 (* non-vacuity: on the instance of Prop_C03, (0,1,1) is a fixed point of the cycle function and is
    1-opt (cost 3; the six unilateral changes give 4, 7, 5 ...), while (0,0,0) is not a fixed point *)
